@@ -1,6 +1,6 @@
 (* Property C19 — permission-gated code execution never runs a forbidden construct.
    Only statements and [exact]; proofs live in Proofs/PermProofs.v. *)
-From PG Require Import Common.Tactics Gen.PermTable Model.Perm Proofs.PermProofs Proofs.PermInstance Model.EvalModel Gen.EvalShape Proofs.EvalProofs Proofs.EvalInstance.
+From PG Require Import Common.Tactics Gen.PermTable Model.Perm Proofs.PermProofs Proofs.PermInstance Model.EvalModel Gen.EvalShape Proofs.EvalProofs Proofs.EvalInstance Model.EvalOut Gen.EvalOut Proofs.EvalOutProofs Proofs.EvalOutInstance.
 From Coq Require Import NArith.
 Local Open Scope N_scope.
 
@@ -89,3 +89,40 @@ Theorem C19_evaluate_result_is_last_value : forall p body last e, prog_wf p = tr
   last_store result_name (evaluate_events shape p) = Some e.
 Proof. exact generated_result_is_last_value. Qed.
 Print Assumptions C19_evaluate_result_is_last_value.
+
+(* ---- intermediate variables (Model/EvalOut.v; plan regenerated from execution.py into Gen/EvalOut.v) ------------- *)
+(* The names evaluate(outputs_intermediate=True) reports, other than '__result__', are exactly the names that plain
+   execution of the same program on the same symbols leaves bound to an object that is not the injected one (new names
+   included, deleted and untouched names excluded); evaluate fails exactly when plain execution does. For every nesting
+   of pg.coding.context scopes, every global_vars and every straight-line program of bindings, deletions and reads. *)
+Theorem C19_intermediates_exact : forall ctxs gv p, p <> [] ->
+  match evaluate_out out_plan ctxs gv p, plain_env (symbols out_plan ctxs gv) p with
+  | Some r, Some gp =>
+      forall k v, k <> RESULT ->
+        (In (k, v) r <-> k <> BUILTINS /\ lookup k gp = Some v /\ lookup k (symbols out_plan ctxs gv) <> Some v)
+  | None, None => True
+  | _, _ => False
+  end.
+Proof. intros; apply intermediates_exact; [exact generated_out_plan_ok | assumption]. Qed.
+Print Assumptions C19_intermediates_exact.
+
+(* The value of a trailing expression / assignment is reported under '__result__'. *)
+Theorem C19_result_reported : forall ctxs gv body s g1 v, is_popped s = true ->
+  exec (add_builtins (symbols out_plan ctxs gv)) body = Some g1 -> rhs s g1 = Some v ->
+  lookup RESULT (symbols out_plan ctxs gv) <> Some v ->
+  exists r, evaluate_out out_plan ctxs gv (body ++ [s]) = Some r /\ In (RESULT, v) r.
+Proof. intros; eapply result_reported; eauto using generated_out_plan_ok. Qed.
+Print Assumptions C19_result_reported.
+
+(* Which symbols the program sees: global_vars win over context symbols, an inner context over an outer one. *)
+Theorem C19_global_vars_win : forall ctxs gv k, wf gv ->
+  lookup k (symbols out_plan ctxs gv) =
+  match lookup k gv with Some v => Some v | None => lookup k (context_symbols out_plan ctxs) end.
+Proof. intros; apply global_vars_win; [exact generated_out_plan_ok | assumption]. Qed.
+Print Assumptions C19_global_vars_win.
+
+Theorem C19_inner_context_wins : forall ctxs c k, wf c ->
+  lookup k (context_symbols out_plan (ctxs ++ [c])) =
+  match lookup k c with Some v => Some v | None => lookup k (context_symbols out_plan ctxs) end.
+Proof. intros; apply inner_context_wins; [exact generated_out_plan_ok | assumption]. Qed.
+Print Assumptions C19_inner_context_wins.
